@@ -55,7 +55,7 @@ type tcase struct {
 	Pcts  map[string][]pct `json:"pcts"`
 }
 
-var tagPool = []string{"", "0_2", "x_1__-1_3", "", "1_1_5", "abc"}
+var tagPool = []string{"", "0_2", "x_1__-1_3", "", "1_1_5", "abc", "1_x_x"}
 
 func close(a, b float64) bool {
 	if a == b {
